@@ -1,8 +1,1413 @@
-//! C10 - not built yet
+//! C10 - reassembly is independent of how the peer fragments a delivery.
+//!
+//! A real `Receiver` (client side: real Connection + Session + two receiver links over a `vpipe`) is fed by
+//! the scripted peer, which plays the sending side and hand-fragments every delivery.  Bounded-exhaustive
+//! enumeration over: a small corpus of message shapes x every partition of the encoded bytes into <= 3
+//! transfer frames, the all-1-byte partition, an empty-payload frame at every position x the 8 choices of
+//! {delivery-id, delivery-tag, message-format} repeated/omitted on continuation frames x a second link's
+//! 2-frame delivery interleaved at every position x abort at every position followed by a normal delivery
+//! x contradictory continuation fields.
+//!
+//! An application task per link loops `recv::<Body<Value>>()` (+ `accept`) and reports every result on a
+//! channel; the harness injects ONE frame, waits for quiescence (paused clock) and looks at the channel.
+//! So "what the application has received when frame k has been processed" is exact.
+//!
+//! Oracle (the statement's words, nothing more):
+//!  * nothing is received before the last frame of a delivery has arrived;
+//!  * at the last frame exactly one message is received, on the right link, equal to the message the peer
+//!    encoded (`Body::Empty` and amqp-value(null) are the same thing on the wire and compare equal);
+//!  * an aborted delivery yields nothing, and the following delivery arrives like any other;
+//!  * a continuation frame whose delivery-id / delivery-tag / message-format contradicts the first frame is
+//!    *reported as an error*: `recv` returns `Err`, or (permissive reading) the library closes the link /
+//!    session / connection with an error on the wire.  Any `Ok(delivery)` for such a delivery is a violation.
+//!    What the link does after that error is not judged (such a case always ends its connection).
+//!  * only the message is compared; the delivery-id/tag/format reported in `Delivery` and the result of
+//!    `accept` are recorded but not judged (the statement does not speak about them).
+use crate::typed::gen_message;
+use fe2o3_amqp::link::{CreditMode, RecvError};
+use fe2o3_amqp::{Connection, Receiver, Session};
+use fe2o3_amqp_types::definitions::Handle;
+use fe2o3_amqp_types::messaging::message::__private::{Deserializable, Serializable};
+use fe2o3_amqp_types::messaging::{AmqpValue, Body, Message};
+use fe2o3_amqp_types::performatives::*;
+use serde::{Deserialize, Serialize};
+use serde_amqp::Value;
+use serde_bytes::ByteBuf;
+use serde_json::json;
+use std::collections::{BTreeMap, BTreeSet, HashSet};
+use std::sync::atomic::{AtomicBool, Ordering};
+use std::sync::Arc;
+use std::time::{Duration, Instant};
+use vlib::peer::{drive, trace_to_strings, value_len, Auto, Body as WBody, Dirn, Peer};
 use vlib::report::{Ctx, Outcome};
+use vlib::runner::{run_exec, RunCfg, Scenario};
+use vlib::util::{h64, hex, par_map};
+use vlib::vpipe::Pipe;
 
-pub fn run(_ctx: &Ctx) -> Outcome {
-    let mut out = Outcome::new("model_checking");
-    out.machinery_errors.push("check C10 is not built yet".into());
+type Msg = Message<Body<Value>>;
+
+// ------------------------------------------------------------------------------------------- corpus
+/// (mask, alt) arguments of `typed::gen_message`: section subsets x body kinds
+/// (bits 0 header, 1 delivery-annotations, 2 message-annotations, 3 properties, 4 application-properties,
+/// 5 footer; body kind = mask >> 6: 0 value, 1 data, 2 data x2, 3 sequence, 4 sequence x2, 5 empty)
+const SHAPES: [(u64, bool); 8] = [
+    (0b000001 | (0 << 6), false), // header + amqp-value(string)
+    (0b001000 | (1 << 6), false), // properties + data
+    (0b010110 | (3 << 6), false), // delivery-annotations + message-annotations + application-properties + sequence
+    (0b100001 | (4 << 6), false), // header + footer + sequence x2
+    (0b001001 | (2 << 6), false), // header + properties + data x2 (second one empty)
+    (0b101000 | (5 << 6), false), // properties + footer, empty body
+    (0b111111 | (0 << 6), false), // every section + amqp-value
+    (0b001000 | (0 << 6), true),  // big properties + amqp-value(map with an array)
+];
+/// one large body (data of 300 bytes: vbin32 with a 4-byte length field): enumerated in the thorough tier,
+/// in the quick tier only the partner of interleaved deliveries and one sample
+const BIG_SHAPE: (u64, bool) = (0b000001 | (1 << 6), true);
+
+#[derive(Debug, Clone)]
+pub struct Shape {
+    pub mask: u64,
+    pub alt: bool,
+    pub bytes: Vec<u8>,
+    /// the message as the application must see it (normalised)
+    pub expected: Msg,
+    /// start offset of every section
+    pub sections: Vec<usize>,
+    /// offsets c such that a cut at c lies strictly inside a 3-byte section header
+    pub in_header: BTreeSet<usize>,
+    /// offsets c such that a cut at c lies inside constructor+size(+count) of a section's value
+    pub in_length: BTreeSet<usize>,
+    /// the offsets tried when the full offset range is too expensive
+    pub interesting: Vec<usize>,
+}
+
+/// `Body::Empty` is written as amqp-value(null): both forms are the same message
+fn normalise(mut m: Msg) -> Msg {
+    if matches!(&m.body, Body::Value(AmqpValue(Value::Null))) {
+        m.body = Body::Empty;
+    }
+    m
+}
+
+fn make_shape(mask: u64, alt: bool) -> Result<Shape, String> {
+    let (m, _, _) = gen_message(mask, alt);
+    let bytes = serde_amqp::to_vec(&Serializable(&m)).map_err(|e| format!("encode: {e}"))?;
+    let expected = normalise(m);
+    // the codec itself must round-trip this shape in one piece (that is C03's business, not ours)
+    let back = serde_amqp::from_slice::<Deserializable<Msg>>(&bytes).map_err(|e| format!("one-piece decode: {e}"))?;
+    if normalise(back.0) != expected {
+        return Err("one-piece decode differs from the original".into());
+    }
+    // section structure, parsed independently of the library (peer::value_len knows only format codes)
+    let mut sections = vec![];
+    let mut in_header = BTreeSet::new();
+    let mut in_length = BTreeSet::new();
+    let mut interesting = BTreeSet::new();
+    let mut pos = 0;
+    while pos < bytes.len() {
+        let n = value_len(&bytes[pos..]).ok_or_else(|| format!("cannot parse section at {pos}"))?;
+        sections.push(pos);
+        // 0x00 0x53 code | value
+        let dlen = 1 + value_len(&bytes[pos + 1..]).ok_or("descriptor")?;
+        for c in pos + 1..pos + dlen {
+            in_header.insert(c);
+        }
+        let v = pos + dlen;
+        let code = bytes[v];
+        let w = match code >> 4 {
+            0xa => 1,
+            0xc | 0xe => 2,
+            0xb => 4,
+            0xd | 0xf => 8,
+            _ => 0,
+        };
+        for c in v + 1..=v + w {
+            if c < pos + n {
+                in_length.insert(c);
+            }
+        }
+        for c in pos..(pos + dlen + 1 + w + 2).min(pos + n) {
+            interesting.insert(c);
+        }
+        interesting.insert(pos + n - 1);
+        pos += n;
+    }
+    interesting.insert(1);
+    interesting.insert(bytes.len() / 2);
+    let len = bytes.len();
+    let interesting: Vec<usize> = interesting.into_iter().filter(|c| *c >= 1 && *c < len).collect();
+    Ok(Shape {
+        mask,
+        alt,
+        bytes,
+        expected,
+        sections,
+        in_header,
+        in_length,
+        interesting,
+    })
+}
+
+/// the corpus is the same in both tiers and in replays (case.msg indexes it); the quick tier enumerates
+/// the first 8 shapes only
+fn corpus() -> (Vec<Shape>, Vec<String>) {
+    let mut v = vec![];
+    let mut dropped = vec![];
+    let mut list: Vec<(u64, bool)> = SHAPES.to_vec();
+    list.push(BIG_SHAPE);
+    for (mask, alt) in list {
+        match make_shape(mask, alt) {
+            Ok(s) => v.push(s),
+            Err(e) => dropped.push(format!("message shape mask={mask:#b} alt={alt} left out: {e}")),
+        }
+    }
+    (v, dropped)
+}
+
+// ------------------------------------------------------------------------------------------- cases
+#[derive(Debug, Clone, PartialEq, Eq, Hash, Serialize, Deserialize)]
+pub enum Kind {
+    /// the delivery alone
+    Plain,
+    /// a 2-frame delivery on the second link: its first frame goes before frame `i` of the main delivery,
+    /// its second frame before frame `j` (i <= j <= number of frames; == number of frames means "after")
+    Interleave { i: u16, j: u16 },
+    /// `after` frames of the partition (all with more=true), then a transfer with aborted=true (carrying a
+    /// junk payload if `junk`), then the same message as a normal delivery with the same partition
+    Abort { after: u16, junk: bool },
+    /// continuation frame `frame` (>= 1) carries a different delivery-id (0) / delivery-tag (1) / message-format (2)
+    Contra { frame: u16, field: u8 },
+}
+
+#[derive(Debug, Clone, PartialEq, Eq, Hash, Serialize, Deserialize)]
+pub struct Case {
+    /// index into the corpus
+    pub msg: u8,
+    /// split offsets, non-decreasing, each in 0..=len: frame k carries bytes[cuts[k-1]..cuts[k]]
+    /// (repeated offsets, 0 and len give empty-payload frames)
+    pub cuts: Vec<u16>,
+    /// continuation frames repeat: bit 0 delivery-id, bit 1 delivery-tag, bit 2 message-format (else omitted)
+    pub cont: u8,
+    /// the first frame says settled=true (pre-settled delivery); otherwise settled is left out everywhere
+    #[serde(default)]
+    pub settled: bool,
+    pub kind: Kind,
+}
+
+impl Case {
+    fn nframes(&self) -> usize {
+        self.cuts.len() + 1
+    }
+    fn has_empty(&self, len: usize) -> bool {
+        let mut prev = 0usize;
+        for c in self.cuts.iter().map(|c| *c as usize).chain(std::iter::once(len)) {
+            if c == prev {
+                return true;
+            }
+            prev = c;
+        }
+        false
+    }
+    /// family of the case: the shape part of a violation signature
+    fn family(&self, len: usize) -> String {
+        let part = if self.nframes() == len && len > 3 {
+            "all-1-byte".to_string()
+        } else if self.has_empty(len) {
+            "empty-frame".to_string()
+        } else {
+            format!("frames={}", self.nframes())
+        };
+        match &self.kind {
+            Kind::Plain => part,
+            Kind::Interleave { .. } => "interleaved".into(),
+            Kind::Abort { .. } => "after-abort".into(),
+            Kind::Contra { frame, field } => format!(
+                "field={} at={}",
+                ["delivery-id", "delivery-tag", "message-format"][*field as usize % 3],
+                if *frame as usize + 1 == self.nframes() { "last" } else { "middle" }
+            ),
+        }
+    }
+    fn is_terminal(&self) -> bool {
+        matches!(self.kind, Kind::Contra { .. })
+    }
+}
+
+fn plain(msg: usize, cuts: &[usize], cont: u8) -> Case {
+    Case {
+        msg: msg as u8,
+        cuts: cuts.iter().map(|c| *c as u16).collect(),
+        cont,
+        settled: false,
+        kind: Kind::Plain,
+    }
+}
+
+fn mk(msg: usize, cuts: &[usize], cont: u8, kind: Kind) -> Case {
+    Case {
+        msg: msg as u8,
+        cuts: cuts.iter().map(|c| *c as u16).collect(),
+        cont,
+        settled: false,
+        kind,
+    }
+}
+
+/// The enumeration of one tier.  Every case is generated exactly once.
+///
+/// quick: the 8 small shapes (23..103 bytes); thorough: additionally the 327-byte shape, 4-frame partitions of
+/// the shapes below 40 bytes and the denser variants marked below.
+fn enumerate(corpus: &[Shape], quick: bool) -> Vec<Case> {
+    let mut v = vec![];
+    let nshapes = if quick { corpus.len().min(SHAPES.len()) } else { corpus.len() };
+    let all_conts: Vec<u8> = (0..8).collect();
+    let two_conts: Vec<u8> = vec![0, 7];
+    for (mi, s) in corpus.iter().enumerate().take(nshapes) {
+        let len = s.bytes.len();
+        let all: Vec<usize> = (1..len).collect();
+        let int = &s.interesting;
+        // a handful of offsets: inside the first/last section header, inside the first/last length field, at
+        // a section boundary, the middle, the last byte
+        let mut few: Vec<usize> = vec![];
+        for c in [
+            s.in_header.iter().next().copied(),
+            s.in_length.iter().next().copied(),
+            s.sections.get(1).copied(),
+            s.in_header.iter().last().copied(),
+            s.in_length.iter().last().copied(),
+            Some(len / 2),
+            Some(len - 1),
+        ]
+        .into_iter()
+        .flatten()
+        {
+            if c >= 1 && c < len && !few.contains(&c) {
+                few.push(c);
+            }
+        }
+        few.sort();
+        let dense: &Vec<usize> = if quick { int } else { &all };
+        // (a) one frame
+        v.push(plain(mi, &[], 0));
+        // (b) two frames: every offset x all 8 continuation choices
+        for a in &all {
+            for c in &all_conts {
+                v.push(plain(mi, &[*a], *c));
+            }
+        }
+        // (c) three frames: all pairs of offsets x all 8 continuation choices
+        for (x, a) in all.iter().enumerate() {
+            for b in &all[x + 1..] {
+                for c in &all_conts {
+                    v.push(plain(mi, &[*a, *b], *c));
+                }
+            }
+        }
+        // (c') thorough: four frames, all triples of offsets, for the shapes below 40 bytes
+        if !quick && len < 40 {
+            for (x, a) in all.iter().enumerate() {
+                for (y, b) in all.iter().enumerate().skip(x + 1) {
+                    for c3 in &all[y + 1..] {
+                        for c in &two_conts {
+                            v.push(plain(mi, &[*a, *b, *c3], *c));
+                        }
+                    }
+                }
+            }
+        }
+        // (d) the all-1-byte partition
+        for c in &all_conts {
+            v.push(plain(mi, &all, *c));
+        }
+        // (e) an empty-payload frame inserted at every position of the 1- and 2-frame partitions
+        for c in &two_conts {
+            v.push(plain(mi, &[0], *c));
+            v.push(plain(mi, &[len], *c));
+        }
+        for a in &all {
+            for c in &two_conts {
+                v.push(plain(mi, &[0, *a], *c));
+                v.push(plain(mi, &[*a, *a], *c));
+                v.push(plain(mi, &[*a, len], *c));
+            }
+        }
+        // ... and of the 3-frame partitions at a few (thorough: the interesting) offsets
+        let e3: &Vec<usize> = if quick { &few } else { int };
+        for (x, a) in e3.iter().enumerate() {
+            for b in &e3[x + 1..] {
+                for cuts in [[0, *a, *b], [*a, *a, *b], [*a, *b, *b], [*a, *b, len]] {
+                    v.push(plain(mi, &cuts, 0));
+                }
+            }
+        }
+        // (e') pre-settled deliveries (settled=true on the first frame): the library decodes them on another path
+        for a in &all {
+            for c in &two_conts {
+                let mut k = plain(mi, &[*a], *c);
+                k.settled = true;
+                v.push(k);
+            }
+        }
+        // (f) a second link's 2-frame delivery interleaved at every position
+        for (i, j) in [(0u16, 0u16), (0, 1), (1, 1)] {
+            v.push(mk(mi, &[], 0, Kind::Interleave { i, j }));
+        }
+        for a in &all {
+            for i in 0..=2u16 {
+                for j in i..=2u16 {
+                    for c in &all_conts {
+                        v.push(mk(mi, &[*a], *c, Kind::Interleave { i, j }));
+                    }
+                }
+            }
+        }
+        for (x, a) in dense.iter().enumerate() {
+            for b in &dense[x + 1..] {
+                for i in 0..=3u16 {
+                    for j in i..=3u16 {
+                        v.push(mk(mi, &[*a, *b], if (i + j) % 2 == 0 { 0 } else { 7 }, Kind::Interleave { i, j }));
+                    }
+                }
+            }
+        }
+        // (g) abort at every position (with and without a junk payload on the aborting frame), then a normal delivery
+        for a in &all {
+            for after in 0..=2u16 {
+                for junk in [false, true] {
+                    for c in &all_conts {
+                        v.push(mk(mi, &[*a], *c, Kind::Abort { after, junk }));
+                    }
+                }
+            }
+        }
+        for (x, a) in dense.iter().enumerate() {
+            for b in &dense[x + 1..] {
+                for after in 0..=3u16 {
+                    v.push(mk(mi, &[*a, *b], if after % 2 == 0 { 0 } else { 7 }, Kind::Abort { after, junk: after % 2 == 1 }));
+                }
+            }
+        }
+        for p in 0..=len {
+            v.push(mk(mi, &all, if p % 2 == 0 { 0 } else { 7 }, Kind::Abort { after: p as u16, junk: p % 3 == 0 }));
+        }
+        // (h) contradictory continuation fields: on the last frame of 2 frames, on the middle or the last of 3
+        for a in &all {
+            for field in 0..3u8 {
+                for c in &two_conts {
+                    v.push(mk(mi, &[*a], *c, Kind::Contra { frame: 1, field }));
+                }
+            }
+        }
+        for (x, a) in few.iter().enumerate() {
+            for b in &few[x + 1..] {
+                for frame in 1..=2u16 {
+                    for field in 0..3u8 {
+                        v.push(mk(mi, &[*a, *b], if frame == 1 { 0 } else { 7 }, Kind::Contra { frame, field }));
+                    }
+                }
+            }
+        }
+        // ... on an empty-payload frame (nothing to splice, still contradictory), and after an empty frame
+        for field in 0..3u8 {
+            v.push(mk(mi, &[len], 0, Kind::Contra { frame: 1, field }));
+            v.push(mk(mi, &[len / 2, len / 2], 7, Kind::Contra { frame: 2, field }));
+        }
+    }
+    v
+}
+
+// ------------------------------------------------------------------------------------------- script
+struct Fr {
+    link: usize,
+    t: Transfer,
+    payload: Vec<u8>,
+    /// this frame completes a delivery of corpus message `.1` on link `.0`
+    done: Option<(usize, usize)>,
+}
+
+struct Ids {
+    next_id: u32,
+    next_tag: u32,
+    handles: [u32; 2],
+}
+
+impl Ids {
+    fn fresh(&mut self) -> (u32, Vec<u8>) {
+        let id = self.next_id;
+        self.next_id += 1;
+        let tag = self.next_tag;
+        self.next_tag += 1;
+        (id, format!("t{tag}").into_bytes())
+    }
+}
+
+fn transfer(handle: u32, first: bool, cont: u8, id: u32, tag: &[u8], more: bool) -> Transfer {
+    Transfer {
+        handle: Handle(handle),
+        delivery_id: if first || cont & 1 != 0 { Some(id) } else { None },
+        delivery_tag: if first || cont & 2 != 0 { Some(ByteBuf::from(tag.to_vec())) } else { None },
+        message_format: if first || cont & 4 != 0 { Some(0) } else { None },
+        settled: None,
+        more,
+        rcv_settle_mode: None,
+        state: None,
+        resume: false,
+        aborted: false,
+        batchable: false,
+    }
+}
+
+fn chunks(bytes: &[u8], cuts: &[u16]) -> Vec<Vec<u8>> {
+    let mut out = vec![];
+    let mut prev = 0usize;
+    for c in cuts.iter().map(|c| *c as usize).chain(std::iter::once(bytes.len())) {
+        let c = c.min(bytes.len()).max(prev);
+        out.push(bytes[prev..c].to_vec());
+        prev = c;
+    }
+    out
+}
+
+/// frames of one whole delivery of corpus message `msg` on `link`
+fn delivery(corpus: &[Shape], link: usize, msg: usize, cuts: &[u16], cont: u8, settled: bool, ids: &mut Ids) -> Vec<Fr> {
+    let (id, tag) = ids.fresh();
+    let ch = chunks(&corpus[msg].bytes, cuts);
+    let n = ch.len();
+    ch.into_iter()
+        .enumerate()
+        .map(|(k, payload)| {
+            let mut t = transfer(ids.handles[link], k == 0, cont, id, &tag, k + 1 < n);
+            if settled && k == 0 {
+                t.settled = Some(true);
+            }
+            Fr {
+                link,
+                t,
+                payload,
+                done: if k + 1 == n { Some((link, msg)) } else { None },
+            }
+        })
+        .collect()
+}
+
+fn build_unit(corpus: &[Shape], case: &Case, ids: &mut Ids) -> Vec<Fr> {
+    let msg = case.msg as usize % corpus.len();
+    match &case.kind {
+        Kind::Plain => delivery(corpus, 0, msg, &case.cuts, case.cont, case.settled, ids),
+        Kind::Interleave { i, j } => {
+            let other = (msg + 1) % corpus.len();
+            let half = (corpus[other].bytes.len() / 2) as u16;
+            let k = case.nframes();
+            let (i, j) = ((*i as usize).min(k), (*j as usize).min(k));
+            // delivery-ids follow the order of the first frames
+            let (a, b) = if i == 0 {
+                let b = delivery(corpus, 1, other, &[half], case.cont, case.settled, ids);
+                let a = delivery(corpus, 0, msg, &case.cuts, case.cont, case.settled, ids);
+                (a, b)
+            } else {
+                let a = delivery(corpus, 0, msg, &case.cuts, case.cont, case.settled, ids);
+                let b = delivery(corpus, 1, other, &[half], case.cont, case.settled, ids);
+                (a, b)
+            };
+            let mut b = b.into_iter();
+            let mut out = vec![];
+            let mut a = a.into_iter();
+            for pos in 0..=k {
+                if pos == i {
+                    out.push(b.next().unwrap());
+                }
+                if pos == j {
+                    out.push(b.next().unwrap());
+                }
+                if pos < k {
+                    out.push(a.next().unwrap());
+                }
+            }
+            out
+        }
+        Kind::Abort { after, junk } => {
+            let k = case.nframes();
+            let p = (*after as usize).min(k);
+            let mut first = delivery(corpus, 0, msg, &case.cuts, case.cont, case.settled, ids);
+            first.truncate(p);
+            let (id, tag) = match first.first() {
+                Some(f) => (f.t.delivery_id.unwrap(), f.t.delivery_tag.clone().unwrap().into_vec()),
+                None => {
+                    // the aborted transfer is the first frame of its delivery: it uses the id/tag taken above
+                    (ids.next_id - 1, format!("t{}", ids.next_tag - 1).into_bytes())
+                }
+            };
+            for f in first.iter_mut() {
+                f.t.more = true;
+                f.done = None;
+            }
+            let mut ab = transfer(ids.handles[0], p == 0, case.cont, id, &tag, false);
+            ab.aborted = true;
+            first.push(Fr {
+                link: 0,
+                t: ab,
+                // "any payload within the frame carrying the performative MUST be ignored": a well-formed
+                // extra section, so that a receiver that keeps it visibly changes the message
+                payload: if *junk { vec![0x00, 0x53, 0x75, 0xa0, 0x03, b'b', b'a', b'd'] } else { vec![] },
+                done: None,
+            });
+            first.extend(delivery(corpus, 0, msg, &case.cuts, case.cont, case.settled, ids));
+            first
+        }
+        Kind::Contra { frame, field } => {
+            let mut d = delivery(corpus, 0, msg, &case.cuts, case.cont, case.settled, ids);
+            let f = (*frame as usize).clamp(1, d.len().max(2) - 1).min(d.len() - 1);
+            let first_id = d[0].t.delivery_id.unwrap();
+            match field % 3 {
+                // a delivery-id nobody else uses (ids.fresh() would collide with the next delivery)
+                0 => d[f].t.delivery_id = Some(first_id.wrapping_add(1_000_000)),
+                1 => d[f].t.delivery_tag = Some(ByteBuf::from(b"other-tag".to_vec())),
+                _ => d[f].t.message_format = Some(1),
+            }
+            for x in d.iter_mut() {
+                x.done = None;
+            }
+            d
+        }
+    }
+}
+
+// ------------------------------------------------------------------------------------------- scenario
+#[derive(Debug)]
+enum Ev {
+    Ok { link: usize, msg: Box<Msg>, id: u32, tag: Vec<u8>, fmt: Option<u32> },
+    Err { link: usize, variant: String, text: String },
+    AcceptErr { link: usize, text: String },
+}
+
+fn variant_of(e: &RecvError) -> String {
+    let s = format!("{:?}", e);
+    s.split(|c: char| !(c.is_alphanumeric() || c == '_')).next().unwrap_or("").to_string()
+}
+
+#[derive(Debug, Clone, Copy, PartialEq, Eq, Serialize, Deserialize)]
+pub enum Mode {
+    /// one frame, quiescence, look; one frame, ...
+    Step,
+    /// all frames of a case in one write, then quiescence
+    Burst,
+}
+
+#[derive(Debug, Clone, Default)]
+pub struct Fail {
+    pub unit: usize,
+    pub sig: String,
+    pub detail: String,
+    pub trace: Vec<String>,
+}
+
+#[derive(Debug, Clone, Default)]
+pub struct BatchObs {
+    pub setup_error: Option<String>,
+    /// units judged (all of them passed except possibly the failing one)
+    pub judged: usize,
+    pub fail: Option<Fail>,
+    pub frames_sent: u64,
+    /// deliveries the application received complete that had arrived in >= 2 transfer frames
+    pub multi_frame_received: u64,
+    pub deliveries_received: u64,
+    pub early_checks: u64,
+    /// how contradictory deliveries were reported: RecvError variant (or wire:<frame>) -> count
+    pub contra_reports: BTreeMap<String, u64>,
+    pub accept_errors: Vec<String>,
+    /// Delivery { id, tag, format } differing from the first frame (recorded, not judged)
+    pub info_mismatch: Vec<String>,
+    pub trace: Vec<String>,
+}
+
+fn spawn_app(link: usize, mut rx: Receiver, tx: std::sync::mpsc::Sender<Ev>) -> tokio::task::JoinHandle<()> {
+    tokio::spawn(async move {
+        loop {
+            match rx.recv::<Body<Value>>().await {
+                Ok(d) => {
+                    let _ = tx.send(Ev::Ok {
+                        link,
+                        msg: Box::new(d.message().clone()),
+                        id: *d.delivery_id(),
+                        tag: d.delivery_tag().to_vec(),
+                        fmt: *d.message_format(),
+                    });
+                    if let Err(e) = rx.accept(&d).await {
+                        let _ = tx.send(Ev::AcceptErr { link, text: e.to_string() });
+                    }
+                }
+                Err(e) => {
+                    let _ = tx.send(Ev::Err {
+                        link,
+                        variant: variant_of(&e),
+                        text: e.to_string(),
+                    });
+                    // keep the link as it is (no detach from our side): what follows an error is not judged
+                    std::future::pending::<()>().await;
+                }
+            }
+        }
+    })
+}
+
+fn describe_case(corpus: &[Shape], c: &Case) -> String {
+    let s = &corpus[c.msg as usize % corpus.len()];
+    let cuts = if c.cuts.len() > 8 { format!("[{} cuts: every byte]", c.cuts.len()) } else { format!("{:?}", c.cuts) };
+    format!(
+        "message shape #{} (mask={:#b} alt={} {} bytes, sections at {:?}) cuts={} continuation-fields(id,tag,format)={}{}{} {}",
+        c.msg,
+        s.mask,
+        s.alt,
+        s.bytes.len(),
+        s.sections,
+        cuts,
+        if c.cont & 1 != 0 { "R" } else { "-" },
+        if c.cont & 2 != 0 { "R" } else { "-" },
+        if c.cont & 4 != 0 { "R" } else { "-" },
+        if c.settled { format!("pre-settled {:?}", c.kind) } else { format!("{:?}", c.kind) }
+    )
+}
+
+pub async fn scenario(corpus: Arc<Vec<Shape>>, cases: Vec<Case>, mode: Mode, want_trace: bool) -> BatchObs {
+    let mut obs = BatchObs::default();
+    let (pipe, a, _b) = Pipe::new();
+    let mut auto = Auto::default();
+    auto.max_frame_size = 4096;
+    auto.outgoing_window = 1 << 30;
+    auto.incoming_window = 1 << 20;
+    let mut peer = Peer::new(pipe, 1, auto);
+    let h = Duration::from_secs(10);
+    // ---- start state: connection, session with a huge incoming window, two receiver links with plenty of credit
+    let conn = drive(&mut peer, Connection::builder().container_id("c10").max_frame_size(4096).open_with_stream(a), h).await;
+    let mut conn = match conn {
+        Some(Ok(c)) => c,
+        other => {
+            obs.setup_error = Some(format!("open: {:?}", other.map(|r| r.map(|_| ()).map_err(|e| e.to_string()))));
+            return obs;
+        }
+    };
+    let sess = drive(&mut peer, Session::builder().incoming_window(1 << 24).begin(&mut conn), h).await;
+    let mut sess = match sess {
+        Some(Ok(s)) => s,
+        other => {
+            obs.setup_error = Some(format!("begin: {:?}", other.map(|r| r.map(|_| ()).map_err(|e| e.to_string()))));
+            return obs;
+        }
+    };
+    let (tx, events) = std::sync::mpsc::channel::<Ev>();
+    let mut apps = vec![];
+    for (k, name) in ["ra", "rb"].iter().enumerate() {
+        let r = drive(
+            &mut peer,
+            Receiver::builder().name(*name).source("q").credit_mode(CreditMode::Auto(100_000)).attach(&mut sess),
+            h,
+        )
+        .await;
+        match r {
+            Some(Ok(rx)) => apps.push(spawn_app(k, rx, tx.clone())),
+            other => {
+                obs.setup_error = Some(format!("attach {name}: {:?}", other.map(|r| r.map(|_| ()).map_err(|e| e.to_string()))));
+                return obs;
+            }
+        }
+    }
+    tokio::time::sleep(Duration::from_millis(1)).await;
+    peer.pump();
+    tokio::time::sleep(Duration::from_millis(1)).await;
+    let handle_of = |peer: &Peer, name: &str| peer.links.iter().find(|l| l.name == name).map(|l| l.our_handle);
+    let (Some(ha), Some(hb)) = (handle_of(&peer, "ra"), handle_of(&peer, "rb")) else {
+        obs.setup_error = Some("the peer did not see both attaches".into());
+        return obs;
+    };
+    let credit_ok = peer.links.iter().all(|l| l.credit >= 1000);
+    if !credit_ok || events.try_recv().is_ok() {
+        obs.setup_error = Some(format!("start state not reached: credit {:?}", peer.links.iter().map(|l| l.credit).collect::<Vec<_>>()));
+        return obs;
+    }
+    let ch = peer.our_channel(0);
+    let mut ids = Ids {
+        next_id: 0,
+        next_tag: 0,
+        handles: [ha, hb],
+    };
+    // ---- the cases
+    for (ui, case) in cases.iter().enumerate() {
+        let shape_len = corpus[case.msg as usize % corpus.len()].bytes.len();
+        let fam = case.family(shape_len);
+        let mark = peer.trace.len();
+        let frames = build_unit(&corpus, case, &mut ids);
+        let contra = case.is_terminal();
+        // frames of the delivery currently open on each link (to count real multi-frame deliveries)
+        let mut open_frames: [usize; 2] = [0, 0];
+        let mut cur_id: [u32; 2] = [0, 0];
+        let mut fail: Option<(String, String)> = None;
+        let mut got_err = false;
+        // (link, corpus message, number of frames the delivery arrived in)
+        let mut pending_expect: Vec<(usize, usize, usize)> = vec![];
+        let nframes = frames.len();
+        let abort_idx = frames.iter().position(|f| f.t.aborted);
+        for (fi, fr) in frames.into_iter().enumerate() {
+            if open_frames[fr.link] == 0 {
+                if let Some(id) = fr.t.delivery_id {
+                    cur_id[fr.link] = id;
+                }
+            }
+            open_frames[fr.link] += 1;
+            let flink = fr.link;
+            if fr.t.aborted {
+                open_frames[flink] = 0;
+            }
+            if let Some((l, m)) = fr.done {
+                pending_expect.push((l, m, open_frames[flink]));
+                open_frames[flink] = 0;
+            }
+            peer.send_perf(ch, Performative::Transfer(fr.t), &fr.payload);
+            obs.frames_sent += 1;
+            if mode == Mode::Burst && fi + 1 < nframes {
+                continue;
+            }
+            tokio::time::sleep(Duration::from_millis(1)).await;
+            let got: Vec<Ev> = events.try_iter().collect();
+            let mut oks: Vec<(usize, Box<Msg>)> = vec![];
+            for ev in got {
+                match ev {
+                    Ev::Ok { link, msg, id, tag, fmt } => {
+                        if !contra {
+                            let want_tag_ok = tag.starts_with(b"t");
+                            if id != cur_id[link] || !want_tag_ok || fmt != Some(0) {
+                                if obs.info_mismatch.len() < 5 {
+                                    obs.info_mismatch.push(format!("unit {ui}: Delivery reports id={id} tag={:?} format={:?}, first frame had id={}", tag, fmt, cur_id[link]));
+                                }
+                            }
+                        }
+                        oks.push((link, msg));
+                    }
+                    Ev::Err { link, variant, text } => {
+                        got_err = true;
+                        if contra {
+                            *obs.contra_reports.entry(format!("recv:{variant}")).or_insert(0) += 1;
+                        } else if fail.is_none() {
+                            fail = Some((
+                                format!("recv-error {variant} {fam}"),
+                                format!("recv on link {link} returned Err({text}) although the peer sent only well-formed deliveries (after frame {fi} of the case)"),
+                            ));
+                        }
+                    }
+                    Ev::AcceptErr { link, text } => {
+                        if obs.accept_errors.len() < 5 {
+                            obs.accept_errors.push(format!("unit {ui} link {link}: {text}"));
+                        }
+                    }
+                }
+            }
+            if contra {
+                if let Some((link, m)) = oks.first() {
+                    fail = Some((
+                        format!("contradictory-accepted {fam}"),
+                        format!(
+                            "a continuation frame contradicted the first frame, yet recv on link {link} returned Ok with {} (after frame {fi}): {}",
+                            if normalise((**m).clone()) == corpus[case.msg as usize % corpus.len()].expected { "the complete message, spliced from contradictory frames" } else { "a message that is not even the one sent" },
+                            short_msg(m)
+                        ),
+                    ));
+                }
+            } else if fail.is_none() {
+                // expected completions at this quiescent point (Step: at most one; Burst: all of the case)
+                let want = std::mem::take(&mut pending_expect);
+                if mode == Mode::Step && want.is_empty() && !oks.is_empty() {
+                    let (link, m) = &oks[0];
+                    fail = Some((
+                        format!("{} {fam}", if abort_idx.map(|a| fi <= a).unwrap_or(false) { "aborted-delivery-received" } else { "received-before-last-frame" }),
+                        format!("after frame {fi} of the case (not the last frame of any delivery) recv on link {link} already returned a message: {}", short_msg(m)),
+                    ));
+                } else {
+                    if mode == Mode::Step && want.is_empty() {
+                        obs.early_checks += 1;
+                    }
+                    let mut oks_left = oks;
+                    for (wl, wm, wn) in want {
+                        let pos = oks_left.iter().position(|(l, _)| *l == wl);
+                        match pos {
+                            None => {
+                                fail = Some((
+                                    format!("{} {fam}", if oks_left.is_empty() { "nothing-received" } else { "received-on-wrong-link" }),
+                                    format!(
+                                        "the last frame of the delivery on link {wl} has been processed but recv has not returned it{}",
+                                        if got_err { " (recv returned an error)" } else { "" }
+                                    ),
+                                ));
+                                break;
+                            }
+                            Some(p) => {
+                                let (_, m) = oks_left.remove(p);
+                                obs.deliveries_received += 1;
+                                if wn >= 2 {
+                                    obs.multi_frame_received += 1;
+                                }
+                                if normalise((*m).clone()) != corpus[wm].expected {
+                                    fail = Some((
+                                        format!("message-changed {fam}"),
+                                        format!("recv on link {wl} returned a message that differs from the one sent: {}", diff_msg(&normalise((*m).clone()), &corpus[wm].expected)),
+                                    ));
+                                    break;
+                                }
+                            }
+                        }
+                    }
+                    if fail.is_none() && !oks_left.is_empty() {
+                        fail = Some((
+                            format!("received-twice {fam}"),
+                            format!("{} more message(s) than deliveries completed: {}", oks_left.len(), short_msg(&oks_left[0].1)),
+                        ));
+                    }
+                }
+            }
+            if fail.is_some() {
+                break;
+            }
+        }
+        peer.pump();
+        if fail.is_none() && contra && !got_err {
+            // permissive reading: the error may be reported by closing the link/session/connection with an error
+            tokio::time::sleep(Duration::from_millis(1)).await;
+            peer.pump();
+            let wire = peer.trace[mark..].iter().find_map(|w| match (&w.body, w.dir) {
+                (WBody::Perf(Performative::Detach(d)), Dirn::FromLib) if d.error.is_some() => Some("wire:detach"),
+                (WBody::Perf(Performative::End(d)), Dirn::FromLib) if d.error.is_some() => Some("wire:end"),
+                (WBody::Perf(Performative::Close(d)), Dirn::FromLib) if d.error.is_some() => Some("wire:close"),
+                _ => None,
+            });
+            match wire {
+                Some(wr) => *obs.contra_reports.entry(wr.to_string()).or_insert(0) += 1,
+                None => {
+                    fail = Some((
+                        format!("contradictory-unreported {fam}"),
+                        "a continuation frame contradicted the first frame; recv reported no error and no detach/end/close with an error was sent".to_string(),
+                    ))
+                }
+            }
+        }
+        obs.judged = ui + 1;
+        if let Some((sig, detail)) = fail {
+            let mut trace = vec![];
+            trace.extend(peer.trace[mark..].iter().map(|w| format!("{} payload={}", w.short(), hex(&w.payload))));
+            obs.fail = Some(Fail {
+                unit: ui,
+                sig,
+                detail: format!("{detail}\n    case: {}", describe_case(&corpus, case)),
+                trace,
+            });
+            break;
+        }
+    }
+    // ---- nothing may arrive afterwards
+    if obs.fail.is_none() {
+        tokio::time::sleep(Duration::from_millis(2)).await;
+        if let Some(Ev::Ok { link, msg, .. }) = events.try_iter().find(|e| matches!(e, Ev::Ok { .. })) {
+            obs.fail = Some(Fail {
+                unit: cases.len().saturating_sub(1),
+                sig: "received-twice trailing".into(),
+                detail: format!("after all deliveries were received recv on link {link} returned one more message: {}", short_msg(&msg)),
+                trace: vec![],
+            });
+        }
+    }
+    if want_trace {
+        obs.trace = trace_to_strings(&peer.trace);
+    }
+    for a in &apps {
+        a.abort();
+    }
+    drop(sess);
+    drop(conn);
+    obs
+}
+
+fn clip(s: String) -> String {
+    if s.chars().count() > 160 {
+        format!("{}..(+{} chars)", s.chars().take(160).collect::<String>(), s.chars().count() - 160)
+    } else {
+        s
+    }
+}
+
+/// the sections in which two messages differ
+fn diff_msg(got: &Msg, want: &Msg) -> String {
+    let mut d = vec![];
+    macro_rules! f {
+        ($name:ident) => {
+            if got.$name != want.$name {
+                d.push(format!("{}: got {} expected {}", stringify!($name), clip(format!("{:?}", got.$name)), clip(format!("{:?}", want.$name))));
+            }
+        };
+    }
+    f!(header);
+    f!(delivery_annotations);
+    f!(message_annotations);
+    f!(properties);
+    f!(application_properties);
+    f!(body);
+    f!(footer);
+    d.join("; ")
+}
+
+fn short_msg(m: &Msg) -> String {
+    let s = format!("{:?}", m);
+    if s.chars().count() > 400 {
+        format!("{}..(+{} chars)", s.chars().take(400).collect::<String>(), s.chars().count() - 400)
+    } else {
+        s
+    }
+}
+
+// ------------------------------------------------------------------------------------------- driver
+#[derive(Debug, Default)]
+struct BatchRun {
+    obs: BatchObs,
+    machinery: Option<String>,
+    lib_panics: Vec<String>,
+    spun: bool,
+}
+
+fn run_batch(corpus: &Arc<Vec<Shape>>, cases: &[Case], mode: Mode, want_trace: bool) -> BatchRun {
+    let scen: Scenario<BatchObs> = {
+        let corpus = corpus.clone();
+        let cases = cases.to_vec();
+        Arc::new(move || Box::pin(scenario(corpus.clone(), cases.clone(), mode, want_trace)))
+    };
+    let cfg = RunCfg {
+        real_timeout: Duration::from_secs(60),
+        ..RunCfg::none()
+    };
+    let ex = run_exec(vec![], &cfg, &scen);
+    let mut r = BatchRun::default();
+    r.spun = ex.spun;
+    r.lib_panics = ex.panics.iter().filter(|p| !p.contains("vcheck/src")).cloned().collect();
+    match ex.out {
+        Some(o) => {
+            if let Some(e) = &o.setup_error {
+                r.machinery = Some(format!("start state not reached: {e}; panics {:?}", ex.panics));
+            }
+            r.obs = o;
+        }
+        None => {
+            r.machinery = Some(if ex.watchdog {
+                format!("a batch of {} cases did not finish in 60 s of real time", cases.len())
+            } else {
+                format!("scenario panicked: {:?}", ex.panics)
+            });
+        }
+    }
+    if let Some(f) = r.obs.fail.as_mut() {
+        if !r.lib_panics.is_empty() {
+            f.detail.push_str(&format!("\n    library task panicked: {:?}", r.lib_panics));
+        }
+        if r.spun {
+            f.detail.push_str("\n    (a task was busy-looping)");
+        }
+    }
+    r
+}
+
+#[derive(Debug, Default)]
+struct Tally {
+    judged: u64,
+    connections: u64,
+    frames_sent: u64,
+    multi_frame_received: u64,
+    deliveries_received: u64,
+    early_checks: u64,
+    contra_reports: BTreeMap<String, u64>,
+    accept_errors: Vec<String>,
+    info_mismatch: Vec<String>,
+    violations: Vec<(String, String, serde_json::Value)>,
+    machinery: Vec<String>,
+    skipped: u64,
+    judged_hashes: Vec<u64>,
+}
+
+impl Tally {
+    fn absorb(&mut self, o: &BatchObs) {
+        self.connections += 1;
+        self.frames_sent += o.frames_sent;
+        self.multi_frame_received += o.multi_frame_received;
+        self.deliveries_received += o.deliveries_received;
+        self.early_checks += o.early_checks;
+        for (k, v) in &o.contra_reports {
+            *self.contra_reports.entry(k.clone()).or_insert(0) += v;
+        }
+        for e in &o.accept_errors {
+            if self.accept_errors.len() < 5 {
+                self.accept_errors.push(e.clone());
+            }
+        }
+        for e in &o.info_mismatch {
+            if self.info_mismatch.len() < 5 {
+                self.info_mismatch.push(e.clone());
+            }
+        }
+    }
+}
+
+fn replay_json(cases: &[Case], mode: Mode, trace: &[String]) -> serde_json::Value {
+    json!({"mode": mode, "cases": cases, "trace": trace})
+}
+
+/// Run one batch; on a discrepancy re-run the failing case singly (then with its predecessor, then with the
+/// whole prefix) to find the smallest reproducing history, record the violation and go on with the rest.
+fn process_batch(corpus: &Arc<Vec<Shape>>, cases: &[Case], mode: Mode, stop: &AtomicBool, deadline: Instant) -> Tally {
+    let mut t = Tally::default();
+    let mut start = 0;
+    while start < cases.len() {
+        if Instant::now() > deadline {
+            stop.store(true, Ordering::Relaxed);
+            t.skipped += (cases.len() - start) as u64;
+            break;
+        }
+        let part = &cases[start..];
+        let r = run_batch(corpus, part, mode, false);
+        t.absorb(&r.obs);
+        if let Some(m) = r.machinery {
+            t.machinery.push(m);
+            t.skipped += part.len() as u64;
+            break;
+        }
+        if r.obs.fail.is_none() && (!r.lib_panics.is_empty() || r.spun) {
+            // not this property's verdict: hand to the owner
+            t.machinery.push(format!(
+                "library task panicked / spun without affecting the deliveries: panics {:?} spun {} (first case of the batch: {})",
+                r.lib_panics,
+                r.spun,
+                describe_case(corpus, &part[0])
+            ));
+        }
+        let judged_ok = match &r.obs.fail {
+            Some(f) => f.unit,
+            None => r.obs.judged,
+        };
+        for c in &part[..judged_ok.min(part.len())] {
+            t.judged += 1;
+            t.judged_hashes.push(h64(c));
+        }
+        match r.obs.fail {
+            None => break,
+            Some(f) => {
+                let idx = f.unit.min(part.len() - 1);
+                t.judged += 1;
+                t.judged_hashes.push(h64(&part[idx]));
+                // smallest reproducing history
+                let single = run_batch(corpus, &part[idx..=idx], mode, false);
+                t.connections += 1;
+                if let Some(sf) = single.obs.fail {
+                    t.violations.push((sf.sig, sf.detail, replay_json(&part[idx..=idx], mode, &sf.trace)));
+                } else {
+                    let mut reported = false;
+                    if idx >= 1 {
+                        let pair = run_batch(corpus, &part[idx - 1..=idx], mode, false);
+                        t.connections += 1;
+                        if let Some(pf) = pair.obs.fail {
+                            if pf.unit == 1 {
+                                t.violations.push((
+                                    format!("{} [after another delivery]", pf.sig),
+                                    format!("{}\n    only after the preceding case: {}", pf.detail, describe_case(corpus, &part[idx - 1])),
+                                    replay_json(&part[idx - 1..=idx], mode, &pf.trace),
+                                ));
+                                reported = true;
+                            }
+                        }
+                    }
+                    if !reported {
+                        t.violations.push((
+                            format!("{} [after earlier deliveries]", f.sig),
+                            format!("{}\n    reproduces only after the {} preceding cases of its connection", f.detail, idx),
+                            replay_json(&part[..=idx], mode, &f.trace),
+                        ));
+                    }
+                }
+                start += idx + 1;
+            }
+        }
+    }
+    t
+}
+
+/// batches: up to `per` non-terminal cases (shapes alternate inside a batch) followed by one terminal
+/// (contradictory) case, which ends its connection
+fn make_batches(cases: Vec<Case>, per: usize) -> Vec<Vec<Case>> {
+    let (terminal, normal): (Vec<Case>, Vec<Case>) = cases.into_iter().partition(|c| c.is_terminal());
+    // heavy cases (hundreds of frames) first so that the pool does not end on them; round-robin over shapes
+    let mut by_msg: BTreeMap<u8, Vec<Case>> = BTreeMap::new();
+    for c in normal {
+        by_msg.entry(c.msg).or_default().push(c);
+    }
+    let mut queues: Vec<std::vec::IntoIter<Case>> = by_msg.into_values().map(|v| v.into_iter()).collect();
+    let mut mixed = vec![];
+    loop {
+        let mut any = false;
+        for q in queues.iter_mut() {
+            if let Some(c) = q.next() {
+                mixed.push(c);
+                any = true;
+            }
+        }
+        if !any {
+            break;
+        }
+    }
+    let mut batches: Vec<Vec<Case>> = vec![];
+    let mut cur: Vec<Case> = vec![];
+    let mut weight = 0usize;
+    for c in mixed {
+        weight += c.nframes();
+        cur.push(c);
+        if cur.len() >= per || weight >= 1200 {
+            batches.push(std::mem::take(&mut cur));
+            weight = 0;
+        }
+    }
+    if !cur.is_empty() {
+        batches.push(cur);
+    }
+    let mut term = terminal.into_iter();
+    for b in batches.iter_mut() {
+        if let Some(t) = term.next() {
+            b.push(t);
+        }
+    }
+    for t in term {
+        batches.push(vec![t]);
+    }
+    batches
+}
+
+pub fn run(ctx: &Ctx) -> Outcome {
+    let mut out = Outcome::new("exploration");
+    if let Some(p) = &ctx.replay {
+        return replay(p, out);
+    }
+    let quick = ctx.quick();
+    let (shapes, dropped) = corpus();
+    let nshapes = if quick { shapes.len().min(SHAPES.len()) } else { shapes.len() };
+    for d in dropped {
+        out.assume(d);
+    }
+    if shapes.len() < 2 {
+        out.machinery_errors.push("fewer than 2 message shapes survive the one-piece round trip".into());
+        return out;
+    }
+    let corpus = Arc::new(shapes);
+    let deadline = ctx.start + Duration::from_secs_f64((ctx.budget_s - 3.0).max(1.0));
+    let cases = enumerate(&corpus, quick);
+    let enumerated = cases.len() as u64;
+    // what the enumeration covers, measured on the cases themselves
+    let mut fam: BTreeMap<String, u64> = BTreeMap::new();
+    let mut cut_in_header = 0u64;
+    let mut cut_in_length = 0u64;
+    for c in &cases {
+        let s = &corpus[c.msg as usize];
+        let key = match &c.kind {
+            Kind::Plain => c.family(s.bytes.len()),
+            Kind::Interleave { .. } => "interleaved".into(),
+            Kind::Abort { .. } => "abort".into(),
+            Kind::Contra { .. } => "contradictory".into(),
+        };
+        *fam.entry(key).or_insert(0) += 1;
+        if c.cuts.len() <= 3 {
+            if c.cuts.iter().any(|x| s.in_header.contains(&(*x as usize))) {
+                cut_in_header += 1;
+            }
+            if c.cuts.iter().any(|x| s.in_length.contains(&(*x as usize))) {
+                cut_in_length += 1;
+            }
+        }
+    }
+    // Step mode for everything; Burst mode (all frames of a case in one write) for the plain and interleaved
+    // partitions of <= 3 frames with continuation choices 0 and 7
+    let burst: Vec<Case> = cases
+        .iter()
+        .filter(|c| !c.is_terminal() && (1..=2).contains(&c.cuts.len()) && (c.cont == 0 || c.cont == 7))
+        .cloned()
+        .collect();
+    let burst_n = burst.len() as u64;
+    let mut work: Vec<(Mode, Vec<Case>)> = make_batches(cases, 32).into_iter().map(|b| (Mode::Step, b)).collect();
+    work.extend(make_batches(burst, 32).into_iter().map(|b| (Mode::Burst, b)));
+    // heaviest batches first
+    work.sort_by_key(|(_, b)| std::cmp::Reverse(b.iter().map(|c| c.nframes()).sum::<usize>()));
+    let t_enum = ctx.elapsed();
+    let stop = AtomicBool::new(false);
+    let tallies = par_map(&work, ctx.threads, |_, (mode, b)| {
+        if stop.load(Ordering::Relaxed) || Instant::now() > deadline {
+            stop.store(true, Ordering::Relaxed);
+            let mut t = Tally::default();
+            t.skipped = b.len() as u64;
+            return t;
+        }
+        process_batch(&corpus, b, *mode, &stop, deadline)
+    });
+    let t_run = ctx.elapsed();
+    let mut total = Tally::default();
+    let mut distinct: HashSet<u64> = HashSet::new();
+    let mut nontrivial: HashSet<u64> = HashSet::new();
+    for (t, (mode, b)) in tallies.into_iter().zip(work.iter()) {
+        total.judged += t.judged;
+        total.connections += t.connections;
+        total.frames_sent += t.frames_sent;
+        total.multi_frame_received += t.multi_frame_received;
+        total.deliveries_received += t.deliveries_received;
+        total.early_checks += t.early_checks;
+        total.skipped += t.skipped;
+        for (k, v) in t.contra_reports {
+            *total.contra_reports.entry(k).or_insert(0) += v;
+        }
+        for e in t.accept_errors {
+            if total.accept_errors.len() < 5 {
+                total.accept_errors.push(e);
+            }
+        }
+        for e in t.info_mismatch {
+            if total.info_mismatch.len() < 5 {
+                total.info_mismatch.push(e);
+            }
+        }
+        total.machinery.extend(t.machinery);
+        total.violations.extend(t.violations);
+        let judged: HashSet<u64> = t.judged_hashes.into_iter().collect();
+        for c in b {
+            let hc = h64(c);
+            if judged.contains(&hc) {
+                let k = h64(&(hc, *mode == Mode::Burst));
+                distinct.insert(k);
+                if c.nframes() >= 2 {
+                    nontrivial.insert(k);
+                }
+            }
+        }
+    }
+    // smallest reproducing case of every class first (report::finish keeps the first of each signature)
+    let size_of = |rp: &serde_json::Value| -> (usize, usize, usize) {
+        let cs = rp["cases"].as_array().cloned().unwrap_or_default();
+        let cuts: usize = cs.iter().map(|c| c["cuts"].as_array().map(|a| a.len()).unwrap_or(0)).sum();
+        let bytes: usize = cs.iter().map(|c| corpus.get(c["msg"].as_u64().unwrap_or(0) as usize).map(|s| s.bytes.len()).unwrap_or(0)).sum();
+        (cs.len(), cuts, bytes)
+    };
+    total.violations.sort_by_key(|(sig, _, rp)| (sig.clone(), size_of(rp)));
+    for (sig, detail, rp) in std::mem::take(&mut total.violations) {
+        out.violation(sig, detail, rp);
+    }
+    for m in total.machinery.iter().take(10) {
+        out.machinery_errors.push(m.clone());
+    }
+    // samples: three cases run on their own with the wire trace
+    let mut samples = vec![];
+    let sample_corpus = corpus.clone();
+    let big = (sample_corpus.len() - 1) as u8;
+    let sh = &corpus[0];
+    let a = sh.in_header.iter().next().copied().unwrap_or(1);
+    let b = sh.in_length.iter().next().copied().unwrap_or(5);
+    for c in [
+        mk(0, &[a, b], 0, Kind::Plain),
+        mk(0, &[b], 2, Kind::Abort { after: 1, junk: true }),
+        mk(0, &[b], 7, Kind::Contra { frame: 1, field: 1 }),
+        mk(big as usize, &[7, 9], 0, Kind::Interleave { i: 1, j: 2 }),
+    ] {
+        let r = run_batch(&sample_corpus, &[c.clone()], Mode::Step, true);
+        let tr: Vec<String> = r.obs.trace.iter().filter(|l| l.contains("transfer(") || l.contains("disposition(") || l.contains("detach(")).cloned().collect();
+        samples.push(json!({"case": describe_case(&sample_corpus, &c), "passed": r.obs.fail.is_none() && r.machinery.is_none(), "contradiction_reported_as": r.obs.contra_reports, "wire": tr}));
+        if !quick || c.msg != big {
+            continue;
+        }
+        // quick tier: the big shape (4-byte length field) is otherwise not enumerated; judge this one sample
+        if let Some(f) = r.obs.fail {
+            out.violation(f.sig, f.detail, replay_json(&[c], Mode::Step, &f.trace));
+        }
+    }
+    let truncated = total.skipped > 0 || stop.load(Ordering::Relaxed);
+    out.set("phase_seconds", json!({"enumerate": t_enum, "execute": t_run - t_enum, "tally_and_samples": ctx.elapsed() - t_run}));
+    out.set("evaluations", total.judged);
+    out.set("distinct_nontrivial", nontrivial.len() as u64);
+    out.set("distinct_cases", distinct.len() as u64);
+    out.set("enumerated", enumerated + burst_n);
+    out.set("cases_not_run_budget", total.skipped);
+    out.set("connections", total.connections);
+    out.set("transfer_frames_sent", total.frames_sent);
+    out.set("deliveries_received_intact", total.deliveries_received);
+    out.set("multi_frame_deliveries_received", total.multi_frame_received);
+    out.set("quiescent_points_checked_nothing_received_before_last_frame", total.early_checks);
+    out.set("cases_by_family", json!(fam));
+    out.set("burst_mode_cases", burst_n);
+    out.set("cases_with_cut_inside_section_header", cut_in_header);
+    out.set("cases_with_cut_inside_length_field", cut_in_length);
+    out.set("contradictions_reported_as", json!(total.contra_reports));
+    out.set("accept_errors_not_judged", json!(total.accept_errors));
+    out.set("delivery_info_mismatches_not_judged", json!(total.info_mismatch));
+    out.set(
+        "message_shapes",
+        json!(corpus.iter().map(|s| format!("mask={:#b} alt={} {}B sections@{:?}", s.mask, s.alt, s.bytes.len(), s.sections)).collect::<Vec<_>>()),
+    );
+    out.set("samples", json!(samples));
+    out.set("exhaustive", !truncated);
+    out.set(
+        "bound",
+        format!(
+            "{} message shapes of {}..{} encoded bytes ({}); per shape: 1 frame; 2 frames at every offset x 8 continuation-field choices (+ pre-settled x 2); 3 frames at all pairs of offsets x 8 choices{}; the all-1-byte partition x 8; an empty frame at every position of every 1-/2-frame partition and of 3-frame partitions at {} offsets; the second link's 2-frame delivery at every position of every 2-frame partition (x 8 choices) and of the 3-frame partitions at {} offsets; abort at every position (with/without junk payload) of every 2-frame partition (x 8 choices), of the 3-frame partitions at {} offsets and at every position of the all-1-byte partition; contradictory delivery-id/tag/format on the last frame of every 2-frame partition, on the middle/last frame of a few 3-frame ones and on an empty frame; everything frame-by-frame, the 2-/3-frame non-contradictory cases also as one burst{}",
+            nshapes,
+            corpus.iter().take(nshapes).map(|s| s.bytes.len()).min().unwrap_or(0),
+            corpus.iter().take(nshapes).map(|s| s.bytes.len()).max().unwrap_or(0),
+            if quick { "the 327-byte shape only as one sample and as the second link's message" } else { "including one 327-byte shape with a 4-byte length field" },
+            if quick { "" } else { "; 4 frames at all triples of offsets (shapes < 40 bytes)" },
+            if quick { "a few" } else { "the header/length-field" },
+            if quick { "the header/length-field" } else { "all" },
+            if quick { "the header/length-field" } else { "all" },
+            if truncated { format!("; CUT by the time budget: {} cases not run", total.skipped) } else { String::new() }
+        ),
+    );
+    out.set(
+        "rule",
+        "evaluations = cases executed on the real Receiver and judged; a case is non-trivial if its delivery reached the library in >= 2 transfer frames (so reassembly really happened); distinct = distinct (message shape, split offsets, continuation-field choice, kind, feeding mode) tuples among the judged cases; multi_frame_deliveries_received is counted at run time from the frames actually sent",
+    );
+    out.assume("the scripted peer injects a frame only at quiescent points (frame-by-frame mode) or all frames of one case in one write (burst mode); transport-level chunking of the byte stream is C06's subject");
+    out.assume("one application task per link loops recv::<Body<Value>>() and accept(); link credit (100000) and the session's incoming window never run out");
+    out.assume("only the message returned by recv is judged; Delivery's id/tag/format and accept() results are recorded in the evidence but not judged");
+    out.assume("after a contradictory continuation frame nothing more is asked of the link (the case ends its connection)");
+    out
+}
+
+fn replay(p: &std::path::Path, mut out: Outcome) -> Outcome {
+    let s = std::fs::read_to_string(p).unwrap_or_default();
+    let j: serde_json::Value = serde_json::from_str(&s).unwrap_or_default();
+    let r = &j["replay"];
+    let cases: Vec<Case> = match serde_json::from_value(r["cases"].clone()) {
+        Ok(c) => c,
+        Err(e) => {
+            out.machinery_errors.push(format!("cannot read the cases of the replay file: {e}"));
+            return out;
+        }
+    };
+    let mode: Mode = serde_json::from_value(r["mode"].clone()).unwrap_or(Mode::Step);
+    let (shapes, _) = corpus();
+    let corpus = Arc::new(shapes);
+    println!("replaying {} case(s) in {:?} mode", cases.len(), mode);
+    for c in &cases {
+        println!("  case: {}", describe_case(&corpus, c));
+    }
+    let res = run_batch(&corpus, &cases, mode, true);
+    for l in &res.obs.trace {
+        println!("  {l}");
+    }
+    if let Some(m) = res.machinery {
+        out.machinery_errors.push(m);
+    }
+    if let Some(f) = res.obs.fail {
+        println!("  FAIL {}: {}", f.sig, f.detail);
+        for l in &f.trace {
+            println!("    {l}");
+        }
+        out.violation(f.sig, f.detail, r.clone());
+    } else {
+        println!("  no violation; contradictions reported as {:?}", res.obs.contra_reports);
+    }
+    out.set("evaluations", res.obs.judged as u64);
+    out.set("distinct_nontrivial", cases.iter().filter(|c| c.nframes() >= 2).count() as u64);
+    out.set("samples", json!([r]));
     out
 }
